@@ -158,7 +158,7 @@ def run_c19(tier, replay=None):
             "samples": samples,
             "exhaustive": True,
             "direction2": {"token_documents": len(docs), "families": [{"content_units_up_to": a, "headers": b} for a, b in fams], "outcome_classes": outcomes,
-                           "alphabet": "118 content units (node / edge / data / key forms with present, missing, duplicated and undecodable attributes; numeric, padded, non-numeric, empty, nested and nine odd-number weight texts (1e999, -0, 0x10, +5, 1_000, NaN, -inf, 400 digits, non-ASCII digits); multi-byte ids; unknown elements, stray text, comments, mismatched end tag, end of input in seven places) x header variants"},
+                           "alphabet": "123 content units (node / edge / data / key forms with present, missing, duplicated and undecodable attributes; numeric, padded, non-numeric, empty, empty-element, nested and ten odd-number weight texts (1e999, -0, 0x10, +5, 1_000, NaN, -inf, 400 digits, non-ASCII digits); multi-byte ids; unknown elements, stray text, comments, mismatched end tag, end of input in seven places) x header variants"},
             "fault_sequences": {"documents": ndocs_corrupt, "byte_stride": stride, "corrupted_variants_read": sum(c["child_calls"] for c in cinfos),
                                 "kinds": ["deletion", "duplication", "truncation", "bit flip"]},
             "failed_checks": {"%s/%s" % k: v for k, v in fails.items()},
